@@ -47,6 +47,7 @@ HotLadder(o) ==
     [] o = 2 -> <<HUtop, UtH(TMin + 240, TMin + 250), UtH(TMin + 90, TMin + 100)>>
     [] o = 3 -> <<HUtop, UtH(TMin + 100, TMin + 300)>>                       \* 200-unit glide
     [] o = 4 -> <<HUtop, UtH(TMin + 190, TMin + 200), UtH(TMin + 50, TMin + 150)>>   \* isothermal + 100-unit glide
+    [] o = 6 -> <<HUtop, UtH(TMin + 140, TMin + 150), UtH(TMin + 140, TMin + 150)>>   \* two utilities at one level (seeded change C04c)
     [] o = 5 -> <<UtH(TMin - 300, TMin - 290)>>   \* only a hot utility BELOW everything (where the service puts the
                                                   \* default HU of a problem without cold streams): top row is a process row
 ColdLadder(o) ==
@@ -55,6 +56,7 @@ ColdLadder(o) ==
     [] o = 2 -> <<CUbot, UtC(TMin + 50, TMin + 60), UtC(TMin + 200, TMin + 210)>>
     [] o = 3 -> <<CUbot, UtC(TMin, TMin + 200)>>
     [] o = 4 -> <<CUbot, UtC(TMin + 100, TMin + 110), UtC(TMin + 150, TMin + 250)>>
+    [] o = 6 -> <<CUbot, UtC(TMin + 100, TMin + 110), UtC(TMin + 100, TMin + 110)>>   \* two utilities at one level
     [] o = 5 -> <<UtC(TMax + 290, TMax + 300)>>   \* only a cold utility ABOVE everything (default CU of a problem without hot streams)
 
 Sup(u) == IF u.k = "H" THEN u.hi ELSE u.lo      \* shifted supply level
